@@ -86,7 +86,8 @@ def observe(root: Path, name: str, req_texts: list) -> dict:
     """What the tool's own linter reads for root/name, and hashes of the file and its .license sibling."""
     f = root / name
     lic = Path(str(f) + ".license")
-    out = {"cop": [], "lic": [], "con": [], "notices": [], "sha": sha(f), "licsha": sha(lic), "blocks": 0, "listed": False}
+    out = {"cop": [], "lic": [], "con": [], "notices": [], "sha": sha(f), "licsha": sha(lic), "blocks": 0, "listed": False,
+           "beyondWindow": False}
     r = core.run_reuse(["--root", str(root), "--no-multiprocessing", "lint", "--json"])
     if r["exc"] or r["exit"] not in (0, 1):
         out["cop"] = ["?lint-failed: " + asc((r["exc"] or r["err"])[-120:])]
@@ -114,6 +115,13 @@ def observe(root: Path, name: str, req_texts: list) -> dict:
         out["con"] = []
     atext = asc(text)
     out["blocks"] = max([atext.count(t) for t in req_texts] + [0])
+    # does any tag of the file lie beyond the 4 KiB window the linter reads (files without snippet marker)?
+    try:
+        raw = carrier.read_bytes() if carrier.exists() else b""
+    except OSError:
+        raw = b""
+    last = max(raw.rfind(b"SPDX-License-Identifier:"), raw.rfind(b"SPDX-FileCopyrightText:"), raw.rfind(b"SPDX-FileContributor:"))
+    out["beyondWindow"] = last >= 4096 and b"SPDX-SnippetBegin" not in raw
     return out
 
 
